@@ -123,10 +123,10 @@ class Accept:
             if self.integral:
                 if g.denominator != 1:
                     continue
-                if lo - HALF - _tol(lo) <= g <= hi + HALF + _tol(hi):
+                if lo - HALF <= g <= hi + HALF or lo - HALF - _tol(lo) <= g <= hi + HALF + _tol(hi):
                     return True
             else:
-                if lo - _tol(lo) <= g <= hi + _tol(hi):
+                if lo <= g <= hi or lo - _tol(lo) <= g <= hi + _tol(hi):
                     return True
         return False
 
@@ -137,6 +137,11 @@ class Accept:
         for a in self.alts:
             for v in ((a[1], a[2]) if isinstance(a, tuple) else (a,)):
                 if isinstance(v, F):
+                    if v.denominator < 10**8:
+                        # a fraction with a small denominator is either exactly a tie or farther than 1e-9 from one
+                        if v.denominator == 2:
+                            return True
+                        continue
                     frac = v - math.floor(v)
                     if abs(frac - HALF) <= _tol(v):
                         return True
@@ -239,6 +244,30 @@ def scale_applies(s: Dict[str, Any], x: F, texttable: bool = False) -> Optional[
     return _and3(_lower_ok(lo, x), _upper_ok(hi, x))
 
 
+class _CScale:
+    """a scale with its limits parsed once"""
+    __slots__ = ("s", "lo", "hi", "texttable", "num", "den")
+
+    def __init__(self, s: Dict[str, Any], texttable: bool = False) -> None:
+        self.s = s
+        self.lo, self.hi = _lim(s.get("lo")), _lim(s.get("hi"))
+        self.texttable = texttable
+        self.num = [F(c) for c in s.get("num") or []]
+        self.den = [F(c) for c in (s.get("den") or [1])]
+
+    def applies(self, x: F) -> Optional[bool]:
+        lo, hi = self.lo, self.hi
+        if lo is None and hi is None:
+            return True
+        if hi is None:
+            if self.texttable and lo[1] == "CLOSED":
+                return x == lo[0]
+            return None
+        if lo is None:
+            return None
+        return _and3(_lower_ok(lo, x), _upper_ok(hi, x))
+
+
 def _poly(coeffs: Sequence[Any], x: F) -> F:
     r = F(0)
     for c in reversed(list(coeffs)):
@@ -259,6 +288,9 @@ class _Piece:
         self.slope = self.n1 / self.d0
         self.lo, self.hi = _lim(s.get("lo")), _lim(s.get("hi"))
         self.inv = None if s.get("inv") is None else F(s["inv"])
+        self._hull = self._compute_hull()
+        self._hull_claim = (None, None) if (self.slope == 0 and (self.fin_lo() is None or self.fin_hi() is None)) else self._hull
+        self._open_ends = [self.f(l[0]) for l in (self.lo, self.hi) if l is not None and l[1] == "OPEN"]
 
     def f(self, x: F) -> F:
         return (self.n0 + self.n1 * x) / self.d0
@@ -267,7 +299,12 @@ class _Piece:
         return (p * self.d0 - self.n0) / self.n1
 
     def applies(self, x: F) -> Optional[bool]:
-        return scale_applies(self.s, x)
+        lo, hi = self.lo, self.hi
+        if lo is None and hi is None:
+            return True
+        if lo is None or hi is None:
+            return None
+        return _and3(_lower_ok(lo, x), _upper_ok(hi, x))
 
     def fin_lo(self) -> Optional[F]:
         return self.lo[0] if self.lo is not None and self.lo[1] in ("CLOSED", "OPEN") else None
@@ -277,6 +314,9 @@ class _Piece:
 
     def hull(self) -> Tuple[Optional[F], Optional[F]]:
         """closed hull of the exact image of the closed internal interval (None = unbounded)"""
+        return self._hull
+
+    def _compute_hull(self) -> Tuple[Optional[F], Optional[F]]:
         a, b = self.fin_lo(), self.fin_hi()
         if self.slope == 0:
             c = self.f(F(0))
@@ -289,17 +329,11 @@ class _Piece:
         """the hull used to claim that a physical value MUST NOT be valid: a constant piece whose internal domain is
         not bounded on both sides has no derived physical limits in odxtools (every value is accepted and mapped to
         the inverse value); the standard does not speak about it -> no claim"""
-        if self.slope == 0 and (self.fin_lo() is None or self.fin_hi() is None):
-            return (None, None)
-        return self.hull()
+        return self._hull_claim
 
     def open_ends(self) -> List[F]:
         """exact physical values of the finite OPEN internal limits"""
-        out = []
-        for l in (self.lo, self.hi):
-            if l is not None and l[1] == "OPEN":
-                out.append(self.f(l[0]))
-        return out
+        return self._open_ends
 
 
 # ---------------------------------------------------------------------------------------------
@@ -316,6 +350,10 @@ class RefCompu:
         self.i_int = internal_type in INT_TYPES
         self.pieces: List[_Piece] = []
         self.points: List[Tuple[F, F]] = []
+        self._vi_memo: Dict[Any, Optional[bool]] = {}
+        tt = self.cat == "TEXTTABLE"
+        self.cs_i2p = [_CScale(s, tt) for s in cm.get("i2p") or []] if self.cat != "TAB-INTP" else []
+        self.cs_p2i = [_CScale(s) for s in cm.get("p2i") or []]
         if self.cat in ("LINEAR", "SCALE-LINEAR"):
             self.pieces = [_Piece(s) for s in cm["i2p"]]
         elif self.cat == "TAB-INTP":
@@ -424,8 +462,9 @@ class RefCompu:
     def _applicable(self, scales: Sequence[Dict[str, Any]], x: F, texttable: bool = False) -> Tuple[List[int], bool]:
         """-> (indices of scales that certainly apply, whether some scale's applicability is DON'T-CARE)"""
         yes, unsure = [], False
-        for i, s in enumerate(scales):
-            r = scale_applies(s, x, texttable)
+        cs = self.cs_p2i if scales is self.cm.get("p2i") else self.cs_i2p
+        for i, c in enumerate(cs):
+            r = c.applies(x)
             if r is True:
                 yes.append(i)
             elif r is None:
@@ -434,6 +473,16 @@ class RefCompu:
 
     def valid_internal(self, x: Any) -> Optional[bool]:
         """MUST (True) / MUST-NOT (False) / DON'T-CARE (None): admissible type and inside the declared scale limits."""
+        try:
+            k = (type(x), x)
+            return self._vi_memo[k]
+        except KeyError:
+            r = self._vi_memo[k] = self._valid_internal(x)
+            return r
+        except TypeError:  # unhashable (bytearray)
+            return self._valid_internal(x)
+
+    def _valid_internal(self, x: Any) -> Optional[bool]:
         cat = self.cat
         adm = admissible(self.it, x)
         if cat == "COMPUCODE":
@@ -536,10 +585,10 @@ class RefCompu:
 
     def _outside(self, p: F, hull: Tuple[Optional[F], Optional[F]]) -> bool:
         lo, hi = hull
-        slack = HALF if self.p_int else F(0)
-        if lo is not None and p < lo - slack - _tol(lo):
+        slack = HALF if self.p_int else 0
+        if lo is not None and p < lo - slack and p < lo - slack - _tol(lo):
             return True
-        if hi is not None and p > hi + slack + _tol(hi):
+        if hi is not None and p > hi + slack and p > hi + slack + _tol(hi):
             return True
         return False
 
